@@ -45,6 +45,8 @@ def main():
     seed = int(os.environ.get('VERIF_SEED', '20260930'))
     sys.path.insert(0, VERIF)
     os.chdir(VERIF)
+    import warnings
+    warnings.filterwarnings('ignore')
     from vlib import coqio, framework
     import translate.all as tr
     ctx = framework.Ctx(a.pid, a.tier, seed)
